@@ -298,6 +298,82 @@ def rule_r8(chk, p, t):
     C05.rule_r10(chk, p, t, rid="C11.R11")
 
 
+def rule_r12(chk, p, t):
+    r = chk.rule(
+        "C11.R12",
+        "the inertial state of a configured site is a function of its configured latitude, longitude and altitude",
+        3,
+        "LLAStateConfig is a mutable pydantic model: its fields can be assigned, and `model_copy(update=...)` / deepcopy / "
+        "pickling carry private attributes along.  The site 'remains at its configured latitude, longitude and altitude' "
+        "only if LLAStateConfig.toECI (and getAltitude) compute their value from the declared FIELDS on every call: every "
+        "attribute of self they read - through self-method calls, depth 3 - is a declared public field.  A private or "
+        "undeclared attribute that a method of the class fills from the fields is a cache with no invalidation: a re-sited "
+        "or cloned configuration keeps the Earth-fixed position of the original site.  Other undeclared reads are undecided",
+        "the values computed",
+    )
+    ci = p.cls("resonaate.scenario.config.state_config.LLAStateConfig")
+    hier = [ci] + list(p.mro(ci))[1:]
+    fields = set()
+    for c in hier:
+        for st in c.node.body:
+            if isinstance(st, ast.AnnAssign) and isinstance(st.target, ast.Name) and not st.target.id.startswith("_"):
+                fields.add(st.target.id)
+    writers = {}
+    for c in hier:
+        for m in c.methods.values():
+            for n in walk_no_nested(m.node):
+                if isinstance(n, (ast.Assign, ast.AnnAssign, ast.AugAssign)):
+                    for tg in n.targets if isinstance(n, ast.Assign) else [n.target]:
+                        if isinstance(tg, ast.Attribute) and isinstance(tg.value, ast.Name) and tg.value.id == "self":
+                            writers.setdefault(tg.attr, []).append((m, n))
+
+    def reads(m, depth=0, seen=None):
+        seen = seen if seen is not None else {m.qualname}
+        out = {}
+        for n in walk_no_nested(m.node):
+            if isinstance(n, ast.Attribute) and isinstance(n.value, ast.Name) and n.value.id == "self" and isinstance(n.ctx, ast.Load):
+                callee = next((c.methods[n.attr] for c in hier if n.attr in c.methods), None)
+                if callee is not None:
+                    if callee.qualname not in seen and depth < 3:
+                        seen.add(callee.qualname)
+                        out.update(reads(callee, depth + 1, seen))
+                else:
+                    out.setdefault(n.attr, (m, n))
+        return out
+
+    from rsa.terms import inline_locals as _il
+
+    n_m = 0
+    for mname in ("toECI", "getAltitude"):
+        m = ci.methods.get(mname)
+        if m is None:
+            r.error(mname, f"LLAStateConfig.{mname} not found")
+            continue
+        n_m += 1
+        bad = und = None
+        for attr, (where, node) in sorted(reads(m).items()):
+            if attr in fields or attr.startswith(("model_", "__")):
+                continue
+            ws = [(wm, wn) for wm, wn in writers.get(attr, []) if any(isinstance(x, ast.Attribute) and isinstance(x.value, ast.Name) and x.value.id == "self" and x.attr in fields for x in ast.walk(_il(wm, wn.value) if getattr(wn, "value", None) is not None else wn))]
+            if ws:
+                bad = bad or (attr, where, node, ws[0])
+            else:
+                und = und or (attr, where, node)
+        cons = f"{ci.qualname}.{mname}"
+        if bad:
+            attr, where, node, (wm, wn) = bad
+            r.violation(cons, f"site-cache:{mname}:{attr}", f"{mname} reads `self.{attr}` ({where.name}), which {wm.name} fills from the configured fields (`{unparse(wn)[:70]}`) and nothing invalidates: after `cfg.latitude = ...` or `cfg.model_copy(update=...)` the configuration still converts the ORIGINAL site - the facility built from it does not sit at its configured latitude / longitude / altitude", where.loc(node))
+        elif und:
+            attr, where, node = und
+            r.undecided(cons, f"{mname} reads `self.{attr}`, which is not a declared field", where.loc(node))
+        else:
+            r.ok(cons, f"a function of the declared fields {sorted(f for f in fields if f in ('latitude', 'longitude', 'altitude'))} on every call", m.loc())
+    if len({"latitude", "longitude", "altitude"} & fields) == 3:
+        r.ok(ci.qualname + ":fields", "latitude, longitude, altitude are declared fields", ci.loc())
+    else:
+        r.error(ci.qualname + ":fields", f"declared fields {sorted(fields)}")
+
+
 def run(chk, p, t):
     chk.explanation = (
         "Static decision of structural necessary conditions of C11: (R1) the ground dynamics' start datetime is the "
@@ -308,8 +384,8 @@ def run(chk, p, t):
         "re-derived after the year correction (shared instance of C05.R5). NOT decided: metre-level accuracy of the IAU-76 reduction, inertial velocity values."
     )
     chk.assumptions += ["timedelta(seconds=x) interprets x as seconds", "eci2ecef/ecef2eci are mutual inverses at equal instants (C04)"]
-    for fn in (rule_r1, rule_r2, rule_r3, rule_r4, rule_r5, rule_r6, rule_r7, rule_r8):
-        rid = "C11.R" + fn.__name__[-1]
+    for fn in (rule_r1, rule_r2, rule_r3, rule_r4, rule_r5, rule_r6, rule_r7, rule_r8, rule_r12):
+        rid = "C11.R" + fn.__name__.split("_r")[-1]
         if not chk.wants(rid):
             continue
         try:
